@@ -417,3 +417,120 @@ Fixpoint alternating (held : bool) (sc : list cop) : bool :=
   | OpPause :: r => negb held && alternating true r
   | OpContinue :: r => held && alternating false r
   end.
+
+(** ** Parallel engine ∥ TWO pauser goroutines (each with its own Pause/Continue
+    script) — e.g. two HTTP handlers, or a monitor and a debugger.  The pause lock
+    records its owner: engine, first or second pauser.  [flagged = false] is the code
+    (Pause = pauseLock.Lock()).  [flagged = true] is the variant with an
+    "already paused" atomic flag swapped BEFORE the lock is taken: a Pause that finds
+    the flag set returns at once; Continue clears the flag and unlocks. *)
+Inductive tid2 := T2E | T2P (second : bool) | T2W (i : nat).
+Inductive owner := OwnEngine | OwnP (second : bool).
+
+Record m2state := mk_m2 {
+  m_pc : ppc;
+  m_s1 : list cop; m_s2 : list cop;       (* the two pausers' remaining calls *)
+  m_w1 : bool; m_w2 : bool;               (* flagged variant: swapped the flag, now waiting for the lock *)
+  m_lock : option owner;
+  m_flag : bool;                          (* flagged variant: the atomic "paused" flag *)
+  m_pq : list ev; m_sq : list ev; m_now : N;
+  m_workers : list (ev * wst);
+  m_fault : bool;
+  m_trace : list lbl
+}.
+
+Definition m2_init (init : list ev) (s1 s2 : list cop) : m2state :=
+  let '(pq, sq) := q_push_all init [] [] in
+  mk_m2 PCheck s1 s2 false false None false pq sq 0 [] false [].
+
+Section Two.
+  Variable prog : program.
+  Variable flagged : bool.
+
+  Definition m2_step_engine (s : m2state) : option m2state :=
+    match m_pc s with
+    | PCheck =>
+        match m_pq s, m_sq s with
+        | [], [] => Some (mk_m2 PDone (m_s1 s) (m_s2 s) (m_w1 s) (m_w2 s) (m_lock s) (m_flag s) (m_pq s) (m_sq s) (m_now s) (m_workers s) (m_fault s) (m_trace s))
+        | _, _ => Some (mk_m2 PLock (m_s1 s) (m_s2 s) (m_w1 s) (m_w2 s) (m_lock s) (m_flag s) (m_pq s) (m_sq s) (m_now s) (m_workers s) (m_fault s) (m_trace s))
+        end
+    | PLock =>
+        match m_lock s with
+        | None => Some (mk_m2 PRound (m_s1 s) (m_s2 s) (m_w1 s) (m_w2 s) (Some OwnEngine) (m_flag s) (m_pq s) (m_sq s) (m_now s) (m_workers s) (m_fault s) (m_trace s))
+        | Some _ => None
+        end
+    | PRound =>
+        let pt := earliest (m_pq s) in
+        let st := earliest (m_sq s) in
+        if pt <=? st
+        then let '(es, pq') := pop_at pt (m_pq s) in
+             Some (mk_m2 PWait (m_s1 s) (m_s2 s) (m_w1 s) (m_w2 s) (m_lock s) (m_flag s) pq' (m_sq s) pt (map (fun e => (e, WSpawned)) es) (m_fault s) (m_trace s))
+        else let '(es, sq') := pop_at st (m_sq s) in
+             Some (mk_m2 PWait (m_s1 s) (m_s2 s) (m_w1 s) (m_w2 s) (m_lock s) (m_flag s) (m_pq s) sq' st (map (fun e => (e, WSpawned)) es) (m_fault s) (m_trace s))
+    | PWait =>
+        if all_finished (m_workers s)
+        then Some (mk_m2 PUnlock (m_s1 s) (m_s2 s) (m_w1 s) (m_w2 s) (m_lock s) (m_flag s) (m_pq s) (m_sq s) (m_now s) [] (m_fault s) (m_trace s))
+        else None
+    | PUnlock =>
+        match m_lock s with
+        | Some _ => Some (mk_m2 PCheck (m_s1 s) (m_s2 s) (m_w1 s) (m_w2 s) None (m_flag s) (m_pq s) (m_sq s) (m_now s) (m_workers s) (m_fault s) (m_trace s))
+        | None => Some (mk_m2 PDone (m_s1 s) (m_s2 s) (m_w1 s) (m_w2 s) None (m_flag s) (m_pq s) (m_sq s) (m_now s) (m_workers s) true (m_trace s))
+        end
+    | PDone => None
+    end.
+
+  Definition m2_step_worker (i : nat) (s : m2state) : option m2state :=
+    match nth_error (m_workers s) i with
+    | Some (e, WSpawned) =>
+        match upd_worker i (fun _ => Some (e, WRunning)) (m_workers s) with
+        | Some ws => Some (mk_m2 (m_pc s) (m_s1 s) (m_s2 s) (m_w1 s) (m_w2 s) (m_lock s) (m_flag s) (m_pq s) (m_sq s) (m_now s) ws (m_fault s) (HStart (ev_id e) :: m_trace s))
+        | None => None
+        end
+    | Some (e, WRunning) =>
+        match upd_worker i (fun _ => Some (e, WFinished)) (m_workers s) with
+        | Some ws =>
+            let '(pq', sq') := q_push_all (prog (ev_id e)) (m_pq s) (m_sq s) in
+            Some (mk_m2 (m_pc s) (m_s1 s) (m_s2 s) (m_w1 s) (m_w2 s) (m_lock s) (m_flag s) pq' sq' (m_now s) ws (m_fault s) (HEnd (ev_id e) :: m_trace s))
+        | None => None
+        end
+    | _ => None
+    end.
+
+  Definition set_script (second : bool) (s : m2state) (sc : list cop) (w : bool) (lk : option owner) (fl : bool) (fault : bool) (tr : list lbl) : m2state :=
+    if second
+    then mk_m2 (m_pc s) (m_s1 s) sc (m_w1 s) w lk fl (m_pq s) (m_sq s) (m_now s) (m_workers s) fault tr
+    else mk_m2 (m_pc s) sc (m_s2 s) w (m_w2 s) lk fl (m_pq s) (m_sq s) (m_now s) (m_workers s) fault tr.
+
+  Definition m2_step_pauser (second : bool) (s : m2state) : option m2state :=
+    let sc := if second then m_s2 s else m_s1 s in
+    let waiting := if second then m_w2 s else m_w1 s in
+    match sc with
+    | [] => None
+    | OpPause :: r =>
+        if flagged && negb waiting then
+          (* paused.Swap(true) *)
+          if m_flag s
+          then Some (set_script second s r false (m_lock s) true (m_fault s) (PauseRet :: m_trace s))   (* "already paused": return *)
+          else Some (set_script second s sc true (m_lock s) true (m_fault s) (m_trace s))
+        else
+          match m_lock s with
+          | None => Some (set_script second s r false (Some (OwnP second)) (m_flag s) (m_fault s) (PauseRet :: m_trace s))
+          | Some _ => None
+          end
+    | OpContinue :: r =>
+        if flagged && negb (m_flag s) then Some (set_script second s r false (m_lock s) false (m_fault s) (ContCall :: m_trace s))
+        else
+          match m_lock s with
+          | Some _ => Some (set_script second s r false None false (m_fault s) (ContCall :: m_trace s))   (* Go lets any goroutine unlock *)
+          | None => Some (set_script second s r false None false true (ContCall :: m_trace s))          (* unlock of unlocked mutex *)
+          end
+    end.
+
+  Definition m2_step (t : tid2) (s : m2state) : option m2state :=
+    if m_fault s then None else
+    match t with
+    | T2E => m2_step_engine s
+    | T2P b => m2_step_pauser b s
+    | T2W i => m2_step_worker i s
+    end.
+End Two.
